@@ -8,43 +8,113 @@ parsed families are compared as well) and on every violating one."""
 from . import c14om, omgen
 
 ORACLE = c14om.ORACLE
-RULE = ('valid OpenMetrics documents from the grammar generator (1-4 families, 1-3 groups each, all types) x each of the '
-        '%d rule-violating transformations of omgen.RULES at every applicable position (quick: a seeded subset of '
-        'positions per rule and document); non-trivial = a violating document, distinct by text' % len(omgen.RULES))
+RULE = ('valid OpenMetrics documents from the grammar generator (1-4 families, 1-3 groups each, all types; native-histogram '
+        'families and histogram families mixing classic groups with native samples included) x each of the %d '
+        'rule-violating transformations of omgen.RULES at every applicable position (quick: a seeded subset of positions '
+        'per rule and document); family orders: every family type behind every family type and behind a native-histogram family / a '
+        'histogram family ending in / containing a native sample - as last family, middle family and '
+        'with a family in between - with the violations of that family alone put back at its place; plus documents the '
+        'parser refuses for reasons the statement does not list (interleaved groups, moved native lines: correspondence '
+        'only); non-trivial = a violating document, distinct by text' % len(omgen.RULES))
 TRUSTED = c14om.TRUSTED
 ASSUMPTIONS = c14om.ASSUMPTIONS + [
     'the valid-document generator only produces documents the unchanged parser accepts (checked: a rejected valid '
     'document is reported in the distribution, and the correspondence compares the verdict on it)']
-TIME_BUDGET = {'quick': 100, 'thorough': 1200}
+TIME_BUDGET = {'quick': 125, 'thorough': 1200}
+
+
+TARGETS = ['counter', 'gauge', 'summary', 'histogram', 'gaugehistogram', 'info', 'stateset', 'unknown', 'untyped-sample']
+# what stands in front of the family that receives the violation: a native-histogram family, a histogram family whose
+# LAST sample is a native histogram, one with native samples among classic groups - and every ordinary family type
+# (state that belongs to one family - its type, its exemptions, its groups - must not leak into the next)
+PRECEDING_NH = ['nh', 'nh-mixed-last', 'nh-mixed']
+PRECEDING = PRECEDING_NH + TARGETS
+
+
+def _ordered_shapes(rng, pre, tgt):
+    """family-type lists in which `tgt` stands after `pre`: directly (last / middle), with another family between the
+    two (no histogram: the order nh .. other .. target), and with a family in front of both; -> (types, index of tgt)"""
+    other = rng.choice(['gauge', 'counter', 'summary', 'info', 'stateset', 'unknown'])
+    return [([pre, tgt], 1), ([pre, tgt, None], 1), ([pre, other, tgt], 2), ([None, pre, tgt, 'nh'], 2)]
 
 
 def cases(ctx):
     rng = ctx.rng
     seen = set()
-    ndocs = ctx.n(320, 2500)
-    for i in range(ndocs):
+
+    def emit(text, rule, order=None):
+        if text in seen:
+            return []
+        seen.add(text)
+        c = {'doc': text, 'rule': rule}
+        if order:
+            c['order'] = order
+        return [c]
+
+    def extra(doc, order=None, limit=2):
+        # refused by the parser but not named in the statement: correspondence only (no direct oracle)
+        for rule, fn in omgen.EXTRA_RULES.items():
+            vs = fn(rng, doc)
+            if not ctx.thorough and len(vs) > limit:
+                vs = rng.sample(vs, limit)
+            for vdoc in vs:
+                yield from emit(vdoc, 'extra:' + rule, order)
+
+    def known(doc):          # the rule instances the unchanged parser is known to accept (known_findings.txt)
+        for rule, fn in omgen.KNOWN_RULES.items():
+            for vdoc in fn(rng, doc)[:2]:
+                yield from emit(vdoc, 'known:' + rule)
+
+    # 1. small documents: one family of each type, every rule at every position
+    for i in range(18):
         g = omgen.Gen(rng, nh=False, rich=(i % 4 != 0))
-        # small documents first (one family of each type, in turn), then mixed ones
-        types = None
-        if i < 18:
-            types = [['counter', 'gauge', 'summary', 'histogram', 'gaugehistogram', 'info', 'stateset', 'unknown',
-                      'untyped-sample'][i % 9]]
-        doc = g.doc(nfam=1 if types else None, types=types)
-        text = omgen.render(doc)
-        if text not in seen:
-            seen.add(text)
-            yield {'doc': text, 'rule': 'valid'}
-        per_rule = None if (ctx.thorough or i < 18) else 3
-        for rule, vdoc in omgen.all_violations(rng, doc, per_rule=per_rule):
-            if vdoc not in seen:
-                seen.add(vdoc)
-                yield {'doc': vdoc, 'rule': rule}
-        if i % 8 == 0:       # the rule instances the unchanged parser is known to accept (known_findings.txt)
-            for rule, fn in omgen.KNOWN_RULES.items():
-                for vdoc in fn(rng, doc)[:2]:
-                    if vdoc not in seen:
-                        seen.add(vdoc)
-                        yield {'doc': vdoc, 'rule': 'known:' + rule}
+        doc = g.doc(nfam=1, types=[TARGETS[i % 9]])
+        yield from emit(omgen.render(doc), 'valid')
+        for rule, vdoc in omgen.all_violations(rng, doc, per_rule=None):
+            yield from emit(vdoc, rule)
+        yield from extra(doc, limit=8)
+        if i % 8 == 0:
+            yield from known(doc)
+    # 2. family orders: every family type behind every family type and behind every kind of native-histogram family
+    #    (native only, classic groups with a native sample last / among them), as the last family, a middle one, and
+    #    with a family in between (quick: two of the four shapes behind a native kind, one behind the others).
+    #    The violations of the target family alone are put back at its place (every rule x the family at that
+    #    position), then every rule is applied to the document as a whole (a seeded subset of positions).
+    k = 0
+    for rep in range(ctx.n(1, 6)):
+        for tgt in TARGETS:
+            for pre in PRECEDING:
+                shapes = _ordered_shapes(rng, pre, tgt)
+                if not ctx.thorough:
+                    shapes = [shapes[k % 4], shapes[(k + 1 + k // 4) % 4]] if pre in PRECEDING_NH else [shapes[(k + k // 12) % 4]]
+                for types, fi in shapes:
+                    g = omgen.Gen(rng, nh=0.3, nh_mixed=True, rich=(k % 4 != 0))
+                    doc = g.doc(nfam=len(types), types=types)
+                    order = 'after:' + pre
+                    yield from emit(omgen.render(doc), 'valid', order)
+                    for rule, vdoc in omgen.focused_violations(rng, doc, fi, per_rule=None if ctx.thorough else 2):
+                        yield from emit(vdoc, rule, order)
+                    for rule, vdoc in omgen.all_violations(rng, doc, per_rule=None if ctx.thorough else 1):
+                        yield from emit(vdoc, rule, order)
+                    yield from extra(doc, order)
+                    if k % 5 == 0:
+                        yield from known(doc)
+                k += 1
+    # 3. mixed documents (1-4 families of any type; in every other document a family is a native histogram, or a
+    #    histogram with classic groups and native samples, with probability 0.3)
+    ndocs = ctx.n(170, 2500)
+    for i in range(ndocs):
+        g = omgen.Gen(rng, nh=(0.3 if i % 2 else False), nh_mixed=True, rich=(i % 4 != 0))
+        doc = g.doc()
+        order = None
+        if any(s.raw is not None for f in doc.families[:-1] for gr in f.groups for s in gr):
+            order = 'mixed-nh'
+        yield from emit(omgen.render(doc), 'valid', order)
+        for rule, vdoc in omgen.all_violations(rng, doc, per_rule=None if ctx.thorough else 3):
+            yield from emit(vdoc, rule, order)
+        yield from extra(doc, order)
+        if i % 8 == 0:
+            yield from known(doc)
 
 
 def impl(case):
@@ -62,7 +132,7 @@ def model(m, case):
 
 
 def direct(case, obs):
-    if case['rule'] == 'valid':
+    if case['rule'] == 'valid' or case['rule'].startswith('extra:'):
         return None
     if obs[0] == 'ok':
         return 'rule %s is violated but the document is accepted: %r' % (case['rule'], case['doc'][:400])
@@ -80,4 +150,8 @@ def classify(case, obs):
     out = ['rule:' + case['rule'], 'outcome:' + (obs[0] if obs[0] == 'ok' else obs[1])]
     if case['rule'] == 'valid' and obs[0] != 'ok':
         out.append('valid-document-rejected')
+    if case.get('order'):
+        out.append('order:' + case['order'])
+        if case['rule'] != 'valid' and 'nh' in case['order']:
+            out.append('after-native:' + case['rule'])
     return out
